@@ -625,7 +625,10 @@ def _h(x):
 def exec_pair(spec, env):
     """outs: [a==b, b==a, a==a and b==b, a!=b, hash(a), hash(b), (b==c, a==c if a third object is given)], then comparisons with foreign objects"""
     sm, E = rt.ns()
-    a, b = build_obj(spec["a"], env), build_obj(spec["b"], env)
+    try:
+        a, b = build_obj(spec["a"], env), build_obj(spec["b"], env)
+    except sm.DomainError:
+        return [{"kind": "skip", "msg": "a comparand cannot be built at the chosen point (LocatedDifferential outside the domain)"}]
     outs = [rt.outcome(lambda: bool(a == b)), rt.outcome(lambda: bool(b == a)), rt.outcome(lambda: bool(a == a) and bool(b == b)),
             rt.outcome(lambda: bool(a != b)), rt.outcome(lambda: _h(a)), rt.outcome(lambda: _h(b))]
     if spec.get("c"):
@@ -647,7 +650,10 @@ def exec_pair(spec, env):
 def exec_reprpair(spec, env):
     """C13: print a, then b, in the same process; evaluate the printed text back"""
     sm, E = rt.ns()
-    a, b = build_obj(spec["a"], env), build_obj(spec["b"], env)
+    try:
+        a, b = build_obj(spec["a"], env), build_obj(spec["b"], env)
+    except sm.DomainError:
+        return [{"kind": "skip", "msg": "a comparand cannot be built at the chosen point (LocatedDifferential outside the domain)"}]
     outs = [rt.outcome(lambda: repr(a)), rt.outcome(lambda: repr(b)), rt.outcome(lambda: str(a)), rt.outcome(lambda: str(b)),
             rt.outcome(lambda: bool(a == b))]
 
